@@ -217,10 +217,14 @@ func c12GenStore(e *Env) c12Store {
 	return s
 }
 
-var c12Families = []string{"prometheus", "push", "varz", "graphite-http", "json"}
+var c12Families = []string{"prometheus", "push", "varz", "graphite-http", "json", "http-server"}
 
 func propC12(e *Env) {
 	family := c12Families[int(e.R.Seed%uint64(len(c12Families)))]
+	if family == "http-server" {
+		c12HTTP(e)
+		return
+	}
 	st := c12GenStore(e)
 	omitProg := e.Choose("knob", 3) == 1
 	emitTS := e.Bool("knob")
